@@ -374,7 +374,7 @@ def _(c):
     # first ("it should be used even if the frame is out of sequence")
     c.ensures(
         "post.dispatch",
-        lambda frame, fx: [(r[0], r[2]) for r in fx]
+        lambda frame, fx: [(r[0], r[2]) for r in fx if r[0] != "call" and r[0] != "observe"]
         == (
             [("ash.handle_ack", (frame,)), ("bellows.ash.AshProtocol.data_frame_received", (frame,))]
             if type(frame) is ash.DataFrame
@@ -541,6 +541,7 @@ def _(c):
         lambda fx: len(calls(fx, "semaphore.__aexit__")) == len([r for r in awaits_of(fx) if r[1] == "semaphore.__aenter__" and r[2] == "return"]),
         on="any",
     )
+    c.modifies("self._pending_data_frames")
     c.ensures(
         "post.no_bookkeeping_left",
         lambda self, fx: unchanged_except(
@@ -549,3 +550,39 @@ def _(c):
         and all(f.frm_num not in self._pending_data_frames for f in write_attempts(fx)[:1]),
         on="any",
     )
+
+
+def sends_started(fx):
+    """frames handed to _send_data_frame: awaited to completion, or left running behind the shield when
+    the caller was cancelled"""
+    return [r[2][0] for r in fx if r[0] == "call" and r[1] == "bellows.ash.AshProtocol._send_data_frame"] + [
+        r[2][0] for r in fx if r[0] == "shield.outer_cancel" and r[1] == "bellows.ash.AshProtocol._send_data_frame"
+    ]
+
+
+@contract("bellows.ash.AshProtocol.send_data", props=["C01"])
+def _(c):
+    c.self(ASH)
+    c.arg("data", T.bytes)
+    c.raises("ncp_failure", ash.NcpFailure)
+    c.raises("not_acked", ash.NotAcked)
+    c.raises("timeout", TimeoutError)
+    c.raises("closed", RuntimeError)
+    c.raises("cancelled", asyncio.CancelledError)
+    # the payload submitted is the payload of the one DATA frame whose transmission is started
+    c.ensures(
+        "post.one_send_with_the_payload",
+        lambda data, fx: len(sends_started(fx)) == 1
+        and type(sends_started(fx)[0]) is ash.DataFrame
+        and sends_started(fx)[0].ezsp_frame == data,
+        on="any",
+    )
+    # "cancelling the caller of a send never loses, duplicates or reorders any other payload": the
+    # transmission itself is never the thing that gets cancelled (it runs behind asyncio.shield), so
+    # _send_data_frame's retransmission / numbering contract holds for every started send
+    c.ensures(
+        "post.transmission_not_cancelled_with_caller",
+        lambda fx: [r for r in awaits_of(fx) if r[1] == "bellows.ash.AshProtocol._send_data_frame" and r[2] == "cancelled"] == [],
+        on="any",
+    )
+    c.ensures("post.no_direct_write", lambda fx: frames_written(fx) == [] and transport_writes(fx) == [], on="any")
